@@ -335,6 +335,100 @@ func c10GoFields(c *core.Ctx) {
 			}
 		}
 	}
+	// the other direction: a YANG integer written into a Go field (or slice item) of a narrower Go type is stored as it is, or refused
+	{
+		m, err := parser.LoadModuleFromString(nil, `module w { namespace "urn:w"; prefix w; revision 2020-01-01; leaf a { type int32; } leaf b { type uint32; } leaf c { type int64; } leaf-list al { type int32; } }`)
+		if err != nil {
+			c.Violate("go-fields/load", "%v", err)
+			return
+		}
+		for _, v := range []int64{0, 1, 44, 127, 128, 255, 256, 300, 32767, 32768, 65535, 65536, 70000, -1, -128, -129, -32769, 2147483647} {
+			holders := map[string]func() interface{}{
+				"int8-field": func() interface{} {
+					return &struct {
+						A, B, C int8
+						Al      []int
+					}{}
+				},
+				"int16-field": func() interface{} {
+					return &struct {
+						A, B, C int16
+						Al      []int
+					}{}
+				},
+				"uint8-field": func() interface{} {
+					return &struct {
+						A, B, C uint8
+						Al      []int
+					}{}
+				},
+				"uint16-field": func() interface{} {
+					return &struct {
+						A, B, C uint16
+						Al      []int
+					}{}
+				},
+				"int8-items": func() interface{} {
+					return &struct {
+						A, B, C int64
+						Al      []int8
+					}{}
+				},
+			}
+			for hname, mk := range holders {
+				for _, leaf := range []string{"a", "b", "c", "al"} {
+					if (leaf == "al") != (hname == "int8-items") || (leaf == "b" && v < 0) {
+						continue
+					}
+					doc := fmt.Sprintf(`{"%s":%d}`, leaf, v)
+					if leaf == "al" {
+						doc = fmt.Sprintf(`{"al":[1,%d]}`, v)
+					}
+					// (nodeutil.Node assigns without converting and wants the field to have the very type: not a store for these)
+					for _, api := range []string{"reflect"} {
+						h := mk()
+						var n node.Node
+						if api == "reflect" {
+							n = nodeutil.ReflectChild(h)
+						} else {
+							n = &nodeutil.Node{Object: h}
+						}
+						tag := fmt.Sprintf("go-field-write/%s/%s/%s", hname, leaf, api)
+						c.Eval()
+						var werr error
+						var back string
+						if c.Guard(tag, func() {
+							src, e := nodeutil.ReadJSON(doc)
+							if e != nil {
+								werr = e
+								return
+							}
+							b := node.NewBrowser(m, n)
+							if werr = b.Root().UpsertFrom(src); werr == nil {
+								back, werr = nodeutil.WriteJSON(b.Root())
+							}
+						}) {
+							continue
+						}
+						c.Shape("%s/accepted=%v", tag, werr == nil)
+						if werr != nil {
+							continue
+						}
+						want := fmt.Sprintf(`"%s":%d`, leaf, v)
+						if leaf == "al" {
+							want = fmt.Sprintf(`"al":[1,%d]`, v)
+						}
+						if v == 0 && leaf != "al" {
+							continue // a zero field reads as unset
+						}
+						if !strings.Contains(back, want) {
+							c.Violate("inexact/"+tag, "%s written into a Go %s was accepted and reads back as %s", doc, hname, back)
+						}
+					}
+				}
+			}
+		}
+	}
 	widths := []struct {
 		yang   string
 		lo, hi int64
